@@ -113,7 +113,8 @@ def _run_check_on(scratch, prop, runs):
                        stderr=subprocess.STDOUT, text=True, timeout=3600)
     viol = [l for l in p.stdout.splitlines() if l.startswith("VIOLATION property=")]
     clauses = sorted(set(l.split("clause=")[1].split()[0] for l in p.stdout.splitlines() if l.strip().startswith("clause=")))
-    return {"exit": p.returncode, "violations": len(viol), "clauses": clauses, "wall_s": round(time.time() - t0, 1),
+    msgs = [l.strip()[:260] for l in p.stdout.splitlines() if l.strip().startswith("clause=")][:3]
+    return {"exit": p.returncode, "violations": len(viol), "clauses": clauses, "wall_s": round(time.time() - t0, 1), "messages": msgs,
             "tail": p.stdout.splitlines()[-4:] if p.returncode not in (0, 1) else []}
 
 
@@ -147,7 +148,7 @@ def mutants(sel):
         fine = (expect == "kill" and killed) or (expect == "survive" and status == "SURVIVED")
         ok_all = ok_all and fine
         results.append(dict(id=mt["id"], prop=mt["prop"], status=status, expected=expect, as_expected=fine,
-                            clauses=r["clauses"], wall_s=r["wall_s"], why=mt["why"], tail=r["tail"]))
+                            clauses=r["clauses"], wall_s=r["wall_s"], why=mt["why"], tail=r["tail"], messages=r["messages"]))
         print("mutant %-36s %-8s (expected %s) clauses=%s %.0fs%s" % (
             mt["id"], status, expect, ",".join(r["clauses"]), r["wall_s"], "" if fine else "   <-- UNEXPECTED"))
     _write("selftest-mutants.json", results)
@@ -196,8 +197,11 @@ def seeded(sel):
         status = "KILLED" if killed else ("SURVIVED" if r["exit"] == 0 else "ERROR")
         fine = (expect == "kill") == killed and status != "ERROR"
         ok_all = ok_all and fine
-        results.append(dict(id=sid, prop=prop, status=status, expected=expect, clauses=r["clauses"], wall_s=r["wall_s"], tail=r["tail"]))
+        results.append(dict(id=sid, prop=prop, status=status, expected=expect, clauses=r["clauses"], wall_s=r["wall_s"], tail=r["tail"],
+                            messages=r["messages"]))
         print("seeded %-28s %-8s (expected %s) clauses=%s %.0fs" % (sid, status, expect, ",".join(r["clauses"]), r["wall_s"]))
+        for mline in r["messages"][:1]:
+            print("        " + mline)
     _write("selftest-seeded.json", results)
     return 0 if ok_all else 2
 
